@@ -964,7 +964,53 @@ def r15_9(ctx, prog, crate):
                           "R15.9", ["iterable", "each-item-verbatim"], "an item of the iterable is mapped to %s, expected the borrowed value itself" % (cs[0].ret if cs else None,), cl[0].where(0))
 
 
+def r15_10(ctx, prog, crate):
+    """The counter builder calls equivalent to --items-count & co.: Divan::<kind>_count(n) is self.counter(n.into()) with
+    the counter type of that kind (the kind the type maps to under KnownCounterKind::of is the one the method is named
+    after), Divan::counter hands its argument to counter_mut and returns self, counter_mut inserts it into
+    self.bench_options.counters and nothing else."""
+    from lib.patheval import PathEval
+    from rules.common import snake
+    D = "divan::Divan::"
+    kinds = [v["name"] for v in prog.adt("counter::any_counter::KnownCounterKind", crate)["variants"]]
+    ctypes = sorted(norm(f["self"]) for f in prog.impls(crate) if f["trait"] == "counter::Counter")
+    n = 0
+    for k in kinds:
+        m = prog.body(D + snake(k) + "_count", crate)
+        if not ctx.anchor("R15.10", "builder Divan::%s_count" % snake(k), 1 if m else 0, 1):
+            continue
+        ctx.saw(m)
+        n += 1
+        sums = PathEval(m).run()
+        ok = bool(sums) and len(sums) == 1
+        tys = []
+        if ok:
+            r = sums[0].ret
+            ok = r[0] == "site" and r[1] == D + "counter" and r[3][0] == ("arg", 1, ()) and r[3][1][0] == "site" and r[3][1][3] == (("arg", 2, ()),) and len(sums[0].calls) == 2
+            call = m.call_at(r[2]) if ok else None
+            tys = [norm(g) for g in (call.gargs if call else []) if norm(g) in ctypes]
+        # the type's kind, by the type's own name (BytesCount <-> Bytes): the same convention the CLI rule uses for `x-count`
+        ctx.check(ok and len(tys) == 1 and tys[0].rsplit("::", 1)[-1] == k + "Count", "R15.10", ["builder", snake(k) + "_count", "counter-of-its-own-kind"],
+                  "Divan::%s_count sets a counter of type %s, expected %sCount via self.counter(count.into())" % (snake(k), tys, k), m.where(0))
+    for fn, callee, recv in (("counter", D + "counter_mut", None), ("counter_mut", "counter::collection::CounterSet::insert", ("bench_options", "counters"))):
+        m = prog.body(D + fn, crate)
+        if not ctx.anchor("R15.10", "Divan::" + fn, 1 if m else 0, 1):
+            continue
+        ctx.saw(m)
+        sums = PathEval(m).run()
+        ok = bool(sums) and len(sums) == 1 and [c[0] for c in sums[0].calls] == [callee]
+        if ok:
+            c = sums[0].calls[0]
+            ok = c[1][1] == ("arg", 2, ()) and (c[1][0] == ("arg", 1, ()) or (c[1][0][0] == "ptr" and c[1][0][1][0] == 1 and (recv is None or c[1][0][1][1] == recv))) and \
+                (sums[0].ret in (("arg", 1, ()), ("ptr", (1, ()))))
+            if recv is not None:
+                ok = ok and c[1][0][0] == "ptr" and c[1][0][1] == (1, recv) and all(k_[1][:2] == recv for k_ in sums[0].mem if isinstance(k_, tuple) and k_[0] == 1)
+        ctx.check(ok, "R15.10", ["builder", fn, "forwards-the-counter"], "Divan::%s does not hand its counter to %s and return self (calls %s)" % (fn, callee, [c[0] for c in sums[0].calls] if sums else "?"), m.where(0))
+    ctx.anchor("R15.10", "per-kind counter builders", n, 4)
+
+
 def run(ctx, prog, crate):
+    r15_10(ctx, prog, crate)
     r15_8(ctx, prog, crate)
     r15_9(ctx, prog, crate)
     r15_1(ctx, prog, crate)
